@@ -67,6 +67,8 @@ def gen_world(rng, i, tier):
     w["multiline"] = ml
     base = rng.pick(["app", "my.app", "x"])
     w["base"] = base
+    # the root the tool is pointed at may have any legal directory name
+    w["rootsub"] = rng.pick(["", "", "", "/stage:2", "/img;rw", "/with space", "/a=b#c"])
     nodes = []
     fid = 0
     if rng.chance(0.15):
@@ -75,7 +77,7 @@ def gen_world(rng, i, tier):
         nodes.append({"p": "$ROOT/some/dir/%s.conf" % base, "t": "f", "entries": contents(rng, fid, shape, dl[2], ml)})
     else:
         w["single"] = False
-        for layer in ("$ROOT/usr/etc", "$ROOT/etc"):
+        for layer in ("$ROOT" + w["rootsub"] + "/usr/etc", "$ROOT" + w["rootsub"] + "/etc"):
             if rng.chance(0.6):
                 fid += 1
                 nodes.append({"p": "%s/%s.conf" % (layer, base), "t": "f", "entries": contents(rng, fid, rng.pick([shape, shape, "both", "nogroup"]), dl[2], ml)})
@@ -113,8 +115,9 @@ def tree_of(world):
             lines.insert(pos, m[1])
             c = "\n".join(lines)
         out.append({"t": "f", "p": n["p"], "c": c})
-    out.append({"t": "d", "p": "$ROOT/usr/etc"})
-    out.append({"t": "d", "p": "$ROOT/etc"})
+    rs = world.get("rootsub", "")
+    out.append({"t": "d", "p": "$ROOT" + rs + "/usr/etc"})
+    out.append({"t": "d", "p": "$ROOT" + rs + "/etc"})
     return out
 
 
@@ -124,19 +127,20 @@ def build_plans(world):
     base = world["base"]
     target = ("$ROOT/some/dir/%s.conf" % base) if world["single"] else "%s.conf" % base
     common = ["--delimiters=" + arg_d, "--comment=" + cm]
-    env = {"ECONFTOOL_ROOT": "$ROOT", "ASAN_OPTIONS": "exitcode=77:detect_leaks=0:replace_str=0:intercept_strlen=0:intercept_strchr=0:intercept_strndup=0", "UBSAN_OPTIONS": "print_stacktrace=1:halt_on_error=1:exitcode=77", "HOME": "$ROOT/home"}
+    rs = world.get("rootsub", "")
+    env = {"ECONFTOOL_ROOT": "$ROOT" + rs, "ASAN_OPTIONS": "exitcode=77:detect_leaks=0:replace_str=0:intercept_strlen=0:intercept_strchr=0:intercept_strndup=0", "UBSAN_OPTIONS": "print_stacktrace=1:halt_on_error=1:exitcode=77", "HOME": "$ROOT/home"}
     ops = []
     for cmd in ("show", "syntax", "cat"):
         ops.append({"op": "tool", "argv": ["$TOOL", cmd] + common + [target], "env": env, "tag": "tool_" + cmd})
     if world["single"]:
         ops.append({"op": "readFile", "o": 0, "path": target, "delim": lib_d, "comment": cm, "tag": "lib"})
     else:
-        ops.append({"op": "readDirs", "o": 0, "usr": "$ROOT/usr/etc", "etc": "$ROOT/etc", "name": base, "suffix": ".conf", "delim": lib_d, "comment": cm, "tag": "lib"})
+        ops.append({"op": "readDirs", "o": 0, "usr": "$ROOT" + rs + "/usr/etc", "etc": "$ROOT" + rs + "/etc", "name": base, "suffix": ".conf", "delim": lib_d, "comment": cm, "tag": "lib"})
     ops.append({"op": "errLocation", "tag": "loc"})
     ops.append({"op": "dump", "k": 0, "ext": True, "tag": "lib_dump"})
     ops.append({"op": "free", "k": 0})
     if not world["single"]:
-        ops.append({"op": "readDirsHistory", "o": 0, "usr": "$ROOT/usr/etc", "etc": "$ROOT/etc", "name": base, "suffix": ".conf", "delim": lib_d, "comment": cm, "tag": "hist"})
+        ops.append({"op": "readDirsHistory", "o": 0, "usr": "$ROOT" + rs + "/usr/etc", "etc": "$ROOT" + rs + "/etc", "name": base, "suffix": ".conf", "delim": lib_d, "comment": cm, "tag": "hist"})
         ops.append({"op": "dumpHistory", "h": 0, "ext": True, "tag": "hist_dump"})
         ops.append({"op": "freeHistory", "h": 0})
     return [{"cfg": dict(world["cfg"], events=False), "tree": tree_of(world), "ops": ops}]
@@ -277,6 +281,8 @@ def check(world, plans, results):
         v.probe("malformed_member")
     if world["single"]:
         v.probe("single_absolute_file")
+    if world.get("rootsub"):
+        v.probe("tool_root_with_unusual_characters")
     return v
 
 
